@@ -199,6 +199,7 @@ type Consent struct {
 	AuthAgo     int64    // seconds before the request at which the user authenticated (auth_time); <0: after request
 	NoAuthTime  bool
 	PresetIDExp int64 // >0: session pre-sets the ID token expiry this many seconds from now
+	PresetATExp int64 // >0: session pre-sets the access token expiry (honoured by the implicit/hybrid handlers)
 	Extra       map[string]interface{}
 }
 
@@ -222,6 +223,9 @@ func (a *App) session(c *Consent, now time.Time) *SimSession {
 	}
 	if c.PresetIDExp > 0 {
 		s.Claims.ExpiresAt = now.Add(time.Duration(c.PresetIDExp) * time.Second)
+	}
+	if c.PresetATExp > 0 {
+		s.SetExpiresAt(fosite.AccessToken, now.Add(time.Duration(c.PresetATExp)*time.Second))
 	}
 	for k, v := range c.Extra {
 		// extra claims of the session surface at introspection (ExtraClaimsSession); they are not copied into the
